@@ -17,7 +17,7 @@ def models(tier):
     ready = [("m", 0, n) for n in ("req", "req_big", "dwr", "dwa", "dpr", "dpa", "req_missing", "req_unkapp", "req_foreign", "unkcmd", "untyped",
                                    "ans_unknown", "ans_nohost", "ans_norc", "dwa_nohost", "dwa_norc",
                                    "dwr_e2e0", "dwr_hbh0", "req_e2e0", "ans_T_replay")]
-    ready += [("ans", 0), ("ans", 1), ("ans2", 0), ("tick", 2)]
+    ready += [("ans", 0), ("ans", 1), ("ans2", 0), ("tick", 2), ("b", 0, "dwr", "dwr"), ("b", 0, "req", "req_unkapp"), ("b", 0, "dwr", "dpr")]
     m1 = monitors.ScenarioModel("inbound-ready", BASE, ready, [monitors.AnswerMonitor], max_socks=1,
                                 prelude=[("accept",), ("m", 0, "cer_p0")])
     raising = copy.deepcopy(BASE)
